@@ -296,14 +296,18 @@ static F::PartialKeys randomTag(Rng & rng, size_t n, size_t maxk, bool nonPrefix
 
 // Factored::Bandit::Experience at the level of its API: record(a, rews) with full joint actions; the driver resolves the
 // entry with its own toIndexPartial and checks the statistics against the records with the same local joint action
-static void fbanditCase(Rng & rng, long nops, int rewardMode, double) {
+static void fbanditCase(Rng & rng, long nops, int rewardMode, double, bool witness = false) {
     size_t nAgents = (size_t)rng.range(1, 4);
     F::Action A(nAgents); for (auto & x : A) x = (size_t)rng.range(1, 4);
     size_t nb = (size_t)rng.range(1, 3);
     std::vector<F::PartialKeys> deps(nb);
     for (auto & d : deps) d = randomTag(rng, nAgents, 3, rng.coin(2, 3));
+    if (witness) { nAgents = 3; A = {2, 4, 3}; nb = 3; deps = {{0, 2}, {1}, {0, 1, 2}}; }   // non-uniform sizes, a non-prefix tag, a three-key tag
     F::Bandit::Experience exp(A, deps);
     KLine h; h.hlist(A); h.hn(nb); for (auto & d : deps) h.hlist(d);
+    h.hn(exp.getRewardMatrix().bases.size()); for (auto & b : exp.getRewardMatrix().bases) h.hlist(b.tag);        // what the object reports back
+    h.hn(exp.getDependencies().size()); for (auto & d : exp.getDependencies()) h.hlist(d);
+    h.hlist(exp.getA());
     for (size_t i = 0; i < nb; ++i) h.hn(exp.getVisitsTable()[i].size());
     bool nonUniform = false; for (auto x : A) if (x != A[0]) nonUniform = true;
     auto dump = [&]() {
@@ -822,7 +826,9 @@ void verif::verif_case(Rng & rng, long idx, const std::string & tier) {
             std::printf("#stat coop_witness_two_parent_agents 1\n");
             return;
         }
-        case 11: return;   // reserved
+        case 11:   // factored bandit: non-uniform action sizes, non-prefix and three-key dependency tags
+            fbanditCase(rng, 60, 0, junk, true); std::printf("#stat fbandit_witness_shapes 1\n");
+            return;
         default: break;
     }
     long k = idx - kFixed;
